@@ -306,6 +306,12 @@ func init() {
 		"addr": {nargs: 1, typ: fixedType(reflect.TypeOf(tlb.MsgAddress{})),
 			build: func(a []string) (reflect.Value, bool) { return reflect.ValueOf(addrOf(a[0])), true },
 			dump:  func(v reflect.Value, _ []string) string { return addrStr(v.Interface().(tlb.MsgAddress)) }},
+		"anycast": {nargs: 1, typ: fixedType(reflect.TypeOf(tlb.Anycast{})),
+			build: func(a []string) (reflect.Value, bool) { return reflect.ValueOf(anyOf(a[0]).Value), true },
+			dump: func(v reflect.Value, _ []string) string {
+				x := v.Interface().(tlb.Anycast)
+				return fmt.Sprintf("%d,%d", x.Depth, x.RewritePfx)
+			}},
 		"cell": {nargs: 1, typ: fixedType(reflect.TypeOf(boc.Cell{})),
 			build: func(a []string) (reflect.Value, bool) {
 				cs := h.BuildCells(h.ParseTable(a[0]))
@@ -361,6 +367,8 @@ func maybeType(inner reflect.Type) reflect.Type {
 		return reflect.TypeOf(tlb.Maybe[tlb.Magic]{})
 	case reflect.TypeOf(tlb.Any{}):
 		return reflect.TypeOf(tlb.Maybe[tlb.Any]{})
+	case reflect.TypeOf(tlb.Anycast{}):
+		return reflect.TypeOf(tlb.Maybe[tlb.Anycast]{})
 	}
 	return nil
 }
@@ -1223,6 +1231,11 @@ func genC20(g *h.G) {
 		case 5:
 			emit([]string{"maybe", "bits", "32"}, []string{"some", h.Hex(g.RandData(256))}, full)
 			emit([]string{"maybe", "bits", "32"}, []string{"none"}, full)
+		case 7:
+			// a composite record without JSON methods of its own inside Maybe (encoding/json's struct codec)
+			g.Count("maybe_composite")
+			emit([]string{"maybe", "anycast"}, []string{"some", fmt.Sprintf("%d,%d", uint32(g.U64()), uint32(g.U64()))}, full)
+			emit([]string{"maybe", "anycast"}, []string{"none"}, full)
 		case 6:
 			emit([]string{"maybe", "big", "Uint256"}, []string{"some", new(big.Int).SetBytes(g.Bytes(32)).String()}, full)
 			emit([]string{"maybe", "magic"}, []string{"some", fmt.Sprint(uint32(g.U64()))}, full)
